@@ -152,6 +152,17 @@ def run_dispatch(case):
 
     # run the real dispatcher loop on this thread; snapshot the model before each packet via packet_received hook
     snapshots = {}
+
+    def all_actor(pk):
+        # an all-packet callback that changes the table: it runs before the port callbacks of this packet, so its changes
+        # count for this packet already (a registration it removes is not called, one it adds is)
+        k = cur['k']
+        for b in behaviours.get((-1, k), []):
+            if b['action'] == 'remove' and model:
+                remove(model[b['target'] % len(model)])
+            elif b['action'] == 'add':
+                add(_norm(b['reg']))
+    cf.packet_received.add_callback(all_actor)
     cf.packet_received.add_callback(lambda pk: snapshots.__setitem__(cur['k'], list(model)))
     try:
         handler.run()
@@ -283,6 +294,14 @@ def _case(draw):
             b['target'] = draw(st.integers(0, 9))
         if action == 'add':
             b['reg'] = draw(_reg())
+        beh.append(b)
+    for _ in range(draw(st.integers(0, 2))):
+        action = draw(st.sampled_from(['remove', 'add']))
+        b = {'cb': -1, 'packet': draw(st.integers(0, len(packets) - 1)), 'action': action}
+        if action == 'remove':
+            b['target'] = draw(st.integers(0, 9))
+        else:
+            b['reg'] = draw(st.one_of(_reg(), st.sampled_from(regs)))
         beh.append(b)
     return {'regs': regs, 'packets': packets, 'behaviours': beh,
             'kinds': draw(st.lists(st.sampled_from(['function', 'function', 'method', 'partial', 'instance']), min_size=5, max_size=5))}
